@@ -56,6 +56,13 @@ class RoleEval:
             if isinstance(d, (ast.Tuple, ast.List)) and isinstance(e.slice.value, int) and \
                     -len(d.elts) <= e.slice.value < len(d.elts):
                 return self.ev(d.elts[e.slice.value], depth + 1)
+        if isinstance(e, ast.Name) and self.resolve is not None:
+            # a named local means what its definition means; the name's own tag is the fall-back
+            d = self.resolve(e.id)
+            if d is not None and not (isinstance(d, ast.Name) and d.id == e.id):
+                v = self.ev(d, depth + 1)
+                if v is not None:
+                    return v
         r = role_of(e, self.resolve) if not isinstance(e, (ast.BinOp, ast.IfExp)) else None
         if r is None and isinstance(e, ast.BinOp) and isinstance(e.op, ast.Sub):
             r0 = role_of(e, self.resolve)
